@@ -299,4 +299,31 @@ def gfxToPngImagePinned (fmt : Fmt) (W H : Nat) (data : Array Byte) : Option Img
   | .rgb => imgFromRGBBytes W H data
   | .gray => imgFromGrayBytes W H data
 
+/-! ## allocation panics
+
+`image.NewRGBA(r)` panics ("huge or negative dimensions") when `4·w·h` does not fit an `int` (`image.pixelBufferLength` /
+`mul3NonNeg`), and `make([]byte, n)` panics ("len out of range") beyond the allocator's limit (`maxAlloc = 2^48` bytes on
+64-bit Linux).  `HWCGfx.W/H` are `uint32` straight from the message, so a state can declare 2^31 × 2^31 pixels with one byte
+of data.  The routines below are the ones above with that first statement made explicit: `none` = allocation panic. -/
+
+def rgbaAllocOk (w h : Nat) : Bool := decide (4 * w * h < 9223372036854775808)
+def sliceAllocOk (n : Nat) : Bool := decide (n ≤ 281474976710656)
+
+def imgFromRGBBytes? (w h : Nat) (data : Array Byte) : Option Img :=
+  if rgbaAllocOk w h then imgFromRGBBytes w h data else none
+
+def imgFromGrayBytes? (w h : Nat) (data : Array Byte) : Option Img :=
+  if rgbaAllocOk w h then imgFromGrayBytes w h data else none
+
+/-- `RwpImgToImage` allocates the target canvas only (the declared size merely bounds its loops) -/
+def rwpImgToImage? (fmt : Fmt) (W H : Nat) (data : Array Byte) (width height : Nat) : Option Img :=
+  if rgbaAllocOk width height then rwpImgToImage fmt W H data width height else none
+
+/-- `ConvertGfxStateToPngBytes`: mono = `NewImage` (`make([]byte, wib·H)`) then `ConvertToImage` (`NewRGBA(W,H)`) -/
+def gfxToPngImage? (fmt : Fmt) (W H : Nat) (data : Array Byte) : Option Img :=
+  match fmt with
+  | .mono => if sliceAllocOk (((W + 7) / 8) * H) && rgbaAllocOk W H then gfxToPngImage .mono W H data else none
+  | .rgb => imgFromRGBBytes? W H data
+  | .gray => imgFromGrayBytes? W H data
+
 end RawPanelVerif.Pix
